@@ -190,6 +190,27 @@ func (c *Counter) Bump(by int32) (int32, bool) {
 
 func NewCounter(lim int32) *Counter { return &Counter{0, lim * 2} }
 
+// loops in methods: the receiver's state is a parameter of the loop
+func (c *Counter) Drain() int32 { // mutating
+	k := int32(0)
+	for c.n > 0 && k < 1000 {
+		c.n--
+		k++
+	}
+	return k
+}
+
+func (c *Counter) UpTo(step int32) int32 { // read-only receiver, calls another method inside the loop
+	s := int32(0)
+	for i := int32(0); i < 50; i++ {
+		if c.Peek() < i*step {
+			return s
+		}
+		s += i
+	}
+	return -s
+}
+
 // ---- loops (recursion on explicit fuel; the first argument of the generated definition)
 func Loop(n int32) int32 {
 	s := int32(0)
@@ -297,14 +318,7 @@ func FillLoop(xs []uint64) {
 		xs[i] = uint64(i)
 	}
 }
-func (c *Counter) Drain() int32 {
-	k := int32(0)
-	for c.n > 0 {
-		c.n--
-		k++
-	}
-	return k
-}
+
 func CallsRefused(a int32) int32 { return Div(a, 3) + 1 }
 
 // test access to the unexported fields (not translated)
